@@ -58,7 +58,7 @@ TRUSTED = [
     "map keys built on the BPF stack are fully initialised: the tail of the ip_address union after `= {0}` is zero (assume inside the policy "
     "lookup model; ISO C leaves it indeterminate, clang zero-fills and the in-kernel verifier rejects uninitialised key bytes)",
     "little-endian host; CBMC's x86_64 data model for the C types (layout harness also run with --32 in the thorough tier)",
-    "no LRU eviction of local_map/audit_map entries below 200 connections in flight",
+    "no LRU eviction of a local_map/audit_map entry while fewer connections are in flight than the map holds (capacity(local_map) >= capacity(audit_map) is checked: C06.maps.local_map)",
     "two-step harness: each connect4 hit by thread T is followed by T's tcp_connect probe before T's next connect; uid/gid/pid_tgid of T do not "
     "change in between; hooks of other threads obey the per-call contracts (frame + key clauses) proved here",
     "not covered: the in-kernel verifier and JIT, clang's BPF code generation, aya's loader, cgroup/kprobe attachment",
@@ -176,6 +176,16 @@ def gen_layout(layout, twin):
                 v = "v_%s_%s" % (s["name"], re.sub(r"\W", "_", f["c_expr"]))
                 out.append('  { %s o; __u32 %s = nondet_u32(); o.%s = %s; __CPROVER_assert(((__u32 *)&o)[%d] == %s, "%s: u32 slot %d holds %s"); }'
                            % (t, v, f["c_expr"], v, f["slot"], v, lab, f["slot"], f["c_expr"]))
+    for m in layout.get("maps", []):
+        n, lab = m["name"], "C06.maps." + m["name"]
+        cap = "(sizeof(*%s.max_entries) / sizeof(int))" % n
+        out.append('  __CPROVER_assert(sizeof(*%s.key) == sizeof(%s), "%s: declared key size is sizeof(%s)");' % (n, m["key"], lab, m["key"]))
+        out.append('  __CPROVER_assert(sizeof(*%s.value) == sizeof(%s), "%s: declared value size is sizeof(%s)");' % (n, m["value"], lab, m["value"]))
+        out.append('  __CPROVER_assert(%s, "%s: map type is %s");' % (" || ".join("sizeof(*%s.type) / sizeof(int) == %s" % (n, k) for k in m["kind"]), lab, " or ".join(m["kind"])))
+        out.append('  __CPROVER_assert(%s >= 1, "%s: holds at least one entry");' % (cap, lab))
+        if m.get("at_least_as_large_as"):
+            o = m["at_least_as_large_as"]
+            out.append('  __CPROVER_assert(%s >= (sizeof(*%s.max_entries) / sizeof(int)), "%s: holds one entry for each of up to capacity(%s) connections in flight between the two hooks");' % (cap, o, lab, o))
     if twin:
         out.append('  __CPROVER_assert(0, "vacuity: end of layout harness");')
     out.append("}")
@@ -202,7 +212,7 @@ static int layout_check(const char *label);
 int main(int argc, char **argv) {
   if (argc < 2) { fprintf(stderr, "usage: replay <label> [input=value ...]\n"); return 3; }
   const char *label = argv[1];
-  if (!strncmp(label, "C06.layout.", 11)) return layout_check(label);
+  if (!strncmp(label, "C06.layout.", 11) || !strncmp(label, "C06.maps.", 9)) return layout_check(label);
   for (int i = 2; i < argc; i++) { char *eq = strchr(argv[i], '=');
     if (!eq) { fprintf(stderr, "bad argument %s\n", argv[i]); return 3; }
     *eq = 0; if (!set_input(argv[i], eq + 1)) { fprintf(stderr, "unknown input %s\n", argv[i]); return 3; } }
@@ -235,6 +245,20 @@ static int layout_check(const char *label) { int bad = 0, seen = 0;''')
         for f in s["fields"]:
             out.append('    printf("offsetof(%s,%s) = %%zu size %%zu (table %d size %d)\\n", offsetof(%s, %s), sizeof(((%s *)0)->%s)); bad |= offsetof(%s, %s) != %d || sizeof(((%s *)0)->%s) != %d;'
                        % (t, f["c_expr"], f["offset"], f["size"], t, f["c_expr"], t, f["c_expr"], t, f["c_expr"], f["offset"], t, f["c_expr"], f["size"]))
+        out.append("  }")
+    for m in layout.get("maps", []):
+        n = m["name"]
+        cap = "(sizeof(*%s.max_entries) / sizeof(int))" % n
+        out.append('  if (!strcmp(label, "C06.maps.%s")) { seen = 1;' % n)
+        out.append('    printf("%s: type %%zu key size %%zu (table: sizeof(%s) = %%zu) value size %%zu (table: sizeof(%s) = %%zu) max_entries %%zu\\n", sizeof(*%s.type) / sizeof(int), sizeof(*%s.key), sizeof(%s), sizeof(*%s.value), sizeof(%s), %s);'
+                   % (n, m["key"], m["value"], n, n, m["key"], n, m["value"], cap))
+        out.append('    bad |= sizeof(*%s.key) != sizeof(%s) || sizeof(*%s.value) != sizeof(%s) || %s < 1 || !(%s);'
+                   % (n, m["key"], n, m["value"], cap, " || ".join("sizeof(*%s.type) / sizeof(int) == %s" % (n, k) for k in m["kind"])))
+        if m.get("at_least_as_large_as"):
+            o = m["at_least_as_large_as"]
+            out.append('    printf("%s holds %%zu entries, %s holds %%zu: with %%zu connections in flight between the two hooks the oldest hand-off entries are evicted before their kprobe runs\\n", %s, (sizeof(*%s.max_entries) / sizeof(int)), (sizeof(*%s.max_entries) / sizeof(int)));'
+                       % (n, o, cap, o, o))
+            out.append('    bad |= %s < (sizeof(*%s.max_entries) / sizeof(int));' % (cap, o))
         out.append("  }")
     out.append('  if (!seen) { fprintf(stderr, "unknown layout label %s\\n", label); return 3; }')
     out.append('  if (bad) { fprintf(stderr, "LAYOUT differs from layout.json: %s\\n", label); return 1; } return 0; }')
@@ -311,7 +335,7 @@ def classify(p, h, linemap, hfile):
         return "limit", desc
     if desc.startswith("vacuity:"):
         return "vacuity", desc
-    if desc.startswith("C06.layout."):
+    if desc.startswith("C06.layout.") or desc.startswith("C06.maps."):
         return "clause", desc.split(":")[0]
     if cls == "postcondition" and f == hfile:
         lab = linemap.get(int(sl.get("line", "0")))
@@ -553,7 +577,7 @@ def run(tier="quick", seed=0, pid="C06"):
             src = "%s:%d" % (REL_C, fl[fn.split("+")[-1]])
         c = cl_by_label.get(lab)
         if hh == "layout":
-            clause_txt = "layout.json row for %s" % lab.split(".")[-1]
+            clause_txt = "layout.json %s row for %s" % ("maps" if ".maps." in lab else "structs", lab.split(".")[-1])
             rc, out, err = do_replay(binary, lab, {}) if binary else (None, "", berr)
             if rc == 1:
                 w = dict(failing_input=dict(struct=lab.split(".")[-1]), cmd=replay_cmd(lab, {}), observed=out)
@@ -575,7 +599,7 @@ def run(tier="quick", seed=0, pid="C06"):
         res["samples"].append("%s: ensures %s  -- %s" % (c["label"], c["body"], c["text"]))
     res["samples"].append("C06.connect4.frame: __CPROVER_assigns(ctx->user_ip4, ctx->user_port, local_map cell) enforced by DFCC on every write in %s" % REL_C)
     res["extra"].update(per_harness=per_h, repo=repo(), labels=[c["label"] for c in clauses] + ["C06.%s.frame" % h for h in HARNESSES] + ["C06.%s.safety" % h for h in HARNESSES + ["layout"]]
-                        + ["C06.layout." + s["name"] for s in layout["structs"]])
+                        + ["C06.layout." + s["name"] for s in layout["structs"]] + ["C06.maps." + m["name"] for m in layout.get("maps", [])])
     res["wall_s"] = time.time() - t_start
     if repo() != "/repo":   # scratch copies (mutation self-tests): keep sources + replay, drop the goto binaries
         for f in os.listdir(wd):
